@@ -413,6 +413,30 @@ def renderValue (cs : Styles) : Nat â†’ Int â†’ CName â†’ Option (List CName) â†
         | .ok .decimal => decimal value
         | .ok (.go counter system fixed prev) => renderTail (renderValue cs fuel) value counter system fixed prev
 
+/-- Which exit a top-level `render_value` call takes (evidence only: branch histogram of the
+correspondence inputs). -/
+def topBranch (cs : Styles) (value : Int) (name : CName) : String :=
+  match resolveCounter cs name none with
+  | .error _ => "resolve-error"
+  | .ok (none, _) => if (lookup cs "decimal").isSome then "unknown-style->decimal" else "unknown-style->empty"
+  | .ok (some counter, _) =>
+    match renderExtLoop cs (loopFuel cs) counter (sysOf counter).1 (sysOf counter).2.1 (sysOf counter).2.2 [name] with
+    | .error _ => "extends-error"
+    | .ok .decimal => "extends-unresolved->decimal"
+    | .ok (.go counter system fixed _) =>
+      let ext := if (sysOf counter).1 then "extends+" else ""
+      match inRange counter system value with
+      | .error _ => ext ++ system ++ ":range-ValueError"
+      | .ok false => ext ++ system ++ ":out-of-range->fallback"
+      | .ok true =>
+        match step3 counter system fixed (step3Value system value) (decide (value < 0)) with
+        | .err e => ext ++ system ++ ":" ++ e.render
+        | .decimal _ => ext ++ system ++ ":too-few-symbols->decimal"
+        | .fallback _ => ext ++ system ++ ":unrepresentable->fallback"
+        | .initial _ =>
+          ext ++ system ++ ":initial" ++ (if decide (value < 0) && usesNegative system then "+negative" else "") ++
+            (if counter.pad.isSome then "+pad" else "")
+
 /-- Recursion fuel of a top-level call (see `Props/C15.lean`, `render_fuel_enough`). -/
 def topFuel (cs : Styles) : Nat := 2 * cs.length + 8
 
